@@ -8,7 +8,7 @@
 (*   ratio1/2/cmp : a grid of small ratios                                                              *)
 (* checks the laws below on each item (MC role) and exports every item with the *predicted* results     *)
 (* of the transformation traits and the list of traits whose precondition holds (GEN role).             *)
-EXTENDS LimitsOps, RatioOps, TLC, Json
+EXTENDS LimitsOps, RatioOps, RatioWide, TLC, Json
 
 CONSTANTS Thorough
 
@@ -158,7 +158,10 @@ RatioCmpItem(n1, d1, n2, d2) == [g |-> "ratiocmp", n1 |-> n1, d1 |-> d1, n2 |-> 
 LogicSeqs == UNION {[1..n -> {"T", "F", "P"}] : n \in 0..3}
 LogicItems == {[g |-> "logic", op |-> op, bs |-> bs] : op \in LogicNames, bs \in LogicSeqs}
 
-Heads == {"class", "enum", "type", "pair", "limits", "ratio1", "ratio2", "ratiocmp", "logic"}
+BigRatios == {[neg |-> s, off |-> o, d |-> d] : s \in BOOLEAN, o \in (IF Thorough THEN {0, 1, 2, 6} ELSE {0, 1}),
+                                                   d \in (IF Thorough THEN {1, 2, 3, 7} ELSE {1, 2, 7})}
+
+Heads == {"class", "enum", "type", "pair", "limits", "ratio1", "ratio2", "ratiocmp", "logic", "big1", "bigcmp"}
 Leaves(h) ==
     CASE h = "class" -> {[g |-> "class", n |-> n, d |-> ClassFacts[n]] : n \in ClassNames}
       [] h = "enum" -> {[g |-> "enum", n |-> n, f |-> EnumFacts(n)] : n \in EnumNames}
@@ -171,6 +174,8 @@ Leaves(h) ==
                                    : op \in RatioOpsNames}
       [] h = "ratiocmp" -> {RatioCmpItem(n1, d1, n2, d2) : n1 \in Ratio2Nums, d1 \in Ratio2Dens, n2 \in Ratio2Nums, d2 \in Ratio2Dens}
       [] h = "logic" -> {x \in LogicItems : LogicPre(x.op, x.bs)}
+      [] h = "big1" -> {[g |-> "big1", a |-> a] : a \in BigRatios}
+      [] h = "bigcmp" -> {[g |-> "bigcmp", a |-> a, b |-> b] : a \in BigRatios, b \in BigRatios}
 
 Init == ph = 0 /\ item = [g |-> "init"]
 Next ==
@@ -314,6 +319,15 @@ Laws ==
         [] item.g = "ratio1" -> IsNormal([num |-> item.num, den |-> item.den])
         [] item.g = "ratio2" -> IsNormal([num |-> item.num, den |-> item.den])
         [] item.g = "ratiocmp" -> RatioLaws(item.n1, item.d1, item.n2, item.d2)
+        [] item.g = "big1" ->
+              LET x == BigNorm(item.a) IN
+              IsNat(x.num) /\ MulAdd(x.num, item.a.d \div x.den, 0) = BigN(item.a)       \* num * g = N
+              /\ RGcd(x.den, DivMod(x.num, x.den).r) = 1
+        [] item.g = "bigcmp" ->
+              B2N(BigCmp("ratio_less", item.a, item.b)) + B2N(BigCmp("ratio_equal", item.a, item.b))
+                  + B2N(BigCmp("ratio_greater", item.a, item.b)) = 1
+              /\ (BigCmp("ratio_less", item.a, item.b) = BigCmp("ratio_greater", item.b, item.a))
+              /\ (item.a = item.b => BigCmp("ratio_equal", item.a, item.b))
         \* De Morgan on sequences without "P"
         [] item.g = "logic" ->
               (item.op # "negation" /\ FirstIdx(item.bs, "P", 1) = 0 =>
